@@ -135,6 +135,13 @@ def trace_cfgs(tier, seed):
                                     cfgs.append(full_cfg({"memory_type": mt, "depth": depth, "width": width,
                                                           "granularity": g, "transparent": t, "read_on_resp": ror,
                                                           "read_ports": rp, "write_ports": wp}))
+    # write-port counts that are not powers of two (index widths of the live-value tables), whole-word writes
+    for mt in MEMTYPES:
+        for wp in ((3, 5, 6, 7) if tier == "thorough" else (3,)):
+            for t, ror in ((False, False), (True, True)) if tier != "thorough" else ((False, False), (False, True), (True, False), (True, True)):
+                if accepts(mt, write_ports=wp, granularity=0):
+                    cfgs.append(full_cfg({"memory_type": mt, "depth": 8, "width": 4, "granularity": 0, "transparent": t,
+                                          "read_on_resp": ror, "read_ports": 2, "write_ports": wp}))
     extra_shapes = [(2, 2), (2, 4), (3, 4), (5, 6), (7, 3), (8, 8), (9, 2), (12, 3), (16, 3), (16, 8)]
     for _ in range(300 if tier == "thorough" else 30):
         mt = rng.choice(MEMTYPES)
